@@ -149,6 +149,9 @@ fn run(ctx: &Ctx) {
     let n = ctx.tier.pick(6, 7);
     let count = gen::exh_count(13, n);
     ctx.run_indexed("exh-bytes-x-rotated-configs", count * 4, |i| Some(Case { input: B(gen::exh_bytes(gen::SIGMA1, i / 4)), cfg: rotated_cfg(seed, i / 4, i % 4) }), check);
+    let n2 = ctx.tier.pick(6, 7);
+    let count2 = gen::exh_count(gen::SIGMA2.len() as u64, n2);
+    ctx.run_indexed("exh-bytes-alphabet2-x-rotated-configs", count2 * 2, |i| Some(Case { input: B(gen::exh_bytes(gen::SIGMA2, i / 2)), cfg: rotated_cfg(seed, i / 2, i % 2) }), check);
     let k = ctx.tier.pick(4, 5);
     // (quick: 29^4 sequences x 4 configurations; thorough: 29^5 x 2)
     let tcount = gen::exh_count(gen::TOKENS.len() as u64, k);
